@@ -121,6 +121,12 @@ def gen_c01(tier, seed):
     for i, (kind, t, o) in enumerate(c01_value_trees(rng, tier)):
         scens.append({"id": sid("C01", kind, i), "props": ["C01"], "mode": "clean", "tags": [kind],
                       "steps": [{"op": "tree", "tree": t}, bk(o), {"op": "restore", "band": 0}]})
+    # contents and settings of production shape (kilobytes to hundreds of kilobytes; zero runs, zero
+    # tails and heads; block sizes of 4 KiB to 1 MiB): judged on the restored bytes (as digests)
+    for i in range(16 if tier == "quick" else 200):
+        scens.append({"id": sid("C01", "big", i), "props": ["C01"], "mode": "big", "tags": ["big"],
+                      "steps": [{"op": "tree", "tree": cvlib.big_tree(rng)}, bk(rng.choice(cvlib.BIG_SETTINGS)), {"op": "restore", "band": 0},
+                                {"op": "validate", "quick": False}]})
     # contents beyond toy scale that are prefixes / duplicates of one another
     for i in range(10 if tier == "quick" else 120):
         t = cvlib.prefix_family_tree(rng, dirs=rng.choice([("",), ("", "d", "d.x")]))
@@ -131,7 +137,7 @@ def gen_c01(tier, seed):
 
 def nontrivial_c01(s):
     t = s["steps"][0]["tree"]
-    return len(t) >= 3 and any(n["k"] == "File" and n["c"] for n in t)
+    return len(t) >= 3 and any(n["k"] == "File" and (n["c"] or n.get("cg")) for n in t)
 
 
 # ------------------------------------------------------------------------------------------
@@ -233,6 +239,46 @@ def prefix_history(rng, nsteps=3, observe=None, deletes=True):
     return steps
 
 
+def big_history(rng, nsteps=2, observe=None, deletes=True):
+    """A history over trees with contents of kilobytes to hundreds of kilobytes (zero runs, zero
+    tails, random data) and settings of production shape; scenario mode "big"."""
+    t = cvlib.big_tree(rng)
+    o = rng.choice(cvlib.BIG_SETTINGS)
+    steps = [{"op": "tree", "tree": t}, bk(o)]
+    if observe:
+        steps.append({"op": observe})
+    nb = 1
+    for i in range(nsteps):
+        t = [dict(n) for n in t]
+        files = [n for n in t if n["k"] == "File" and n.get("cg")]
+        how = rng.choice(["rewrite", "grow", "shrink", "add", "remove"])
+        if how == "rewrite" and files:
+            f = rng.choice(files)
+            f["cg"] = cvlib.big_content(rng)
+            f["mt"] = [f["mt"][0] + 500 + i, 0]
+        elif how == "grow" and files:
+            f = rng.choice(files)
+            f["cg"] = f["cg"] + [rng.choice([["z", rng.choice(cvlib.BIG_SIZES), 0], ["r", 999, i + 5]])]
+            f["mt"] = [f["mt"][0] + 500 + i, 0]
+        elif how == "shrink" and files:
+            f = rng.choice(files)
+            f["cg"] = f["cg"][:1]
+            f["mt"] = [f["mt"][0] + 500 + i, 1]
+        elif how == "remove" and len(files) > 1:
+            t.remove(rng.choice(files))
+        else:
+            t.append(node("/n%d" % i, "File", cg=cvlib.big_content(rng), mt=(1600009000 + i, 0)))
+        steps += [{"op": "tree", "tree": t}, bk(rng.choice([o, o, rng.choice(cvlib.BIG_SETTINGS)]))]
+        nb += 1
+        if observe:
+            steps.append({"op": observe})
+        if deletes and nb >= 2 and rng.random() < 0.4:
+            steps.append({"op": "delete", "bands": [rng.randrange(0, nb - 1)], "dry": False})
+            if observe:
+                steps.append({"op": observe})
+    return steps
+
+
 @check("C02", "model_checking", "TLA+ spec + TLC (bounded histories) + trace validation of random operation histories on the real code")
 def gen_c02(tier, seed):
     rng = random.Random(seed * 1000 + 2)
@@ -244,6 +290,9 @@ def gen_c02(tier, seed):
     for i in range(8 if tier == "quick" else 100):
         scens.append({"id": sid("C02", "pfx", i), "props": ["C02"], "mode": "clean", "tags": ["prefix-family"],
                       "steps": prefix_history(rng, nsteps=rng.choice([2, 3]), observe="restore_all")})
+    for i in range(8 if tier == "quick" else 100):
+        scens.append({"id": sid("C02", "big", i), "props": ["C02"], "mode": "big", "tags": ["big"],
+                      "steps": big_history(rng, nsteps=rng.choice([2, 3]), observe="restore_all")})
     # "asking for the latest complete version selects the newest of them": arrangements of complete,
     # interrupted, head-less and deleted versions (gaps in the ids), written in the documented format
     # by the harness, as any history of backups, kills and deletes may leave them
@@ -929,6 +978,11 @@ def gen_c17(tier, seed):
             f3 = rng.choice(flavors)
             steps += [{"op": "new_archive", "rt": f3}] + hist + [{"op": "archive_digest"}]
         scens.append({"id": sid("C17", "r", i), "props": ["C17"], "mode": "clean", "tags": ["replay", f1, f2], "steps": steps})
+    for i in range(8 if tier == "quick" else 100):
+        hist = big_history(rng, nsteps=rng.choice([1, 2]))
+        f1, f2 = rng.sample(flavors, 2)
+        steps = [{"op": "new_archive", "rt": f1}] + hist + [{"op": "archive_digest"}, {"op": "new_archive", "rt": f2}] + hist + [{"op": "archive_digest"}]
+        scens.append({"id": sid("C17", "big", i), "props": ["C17"], "mode": "big", "tags": ["replay", "big", f1, f2], "steps": steps})
     # histories over contents that are prefixes / duplicates of one another at 40-260 bytes, combined
     # into shared blocks: whatever the program derives from them must not depend on hash-map
     # iteration order, addresses or the time
